@@ -784,3 +784,379 @@ Proof.
   - apply tr_stage1_joined; assumption.
   - apply tr_stage1_computed; [exact Hc | | exact Hwf]. apply IH. inversion Hwf; assumption.
 Qed.
+
+(* ================= stage 2: tr_rows = the requested columns of the table ================= *)
+Lemma tr_flat_map_ext_in {A B} (f g : A -> list B) l : (forall x, In x l -> f x = g x) -> flat_map f l = flat_map g l.
+Proof.
+  induction l as [|x l IH]; intros H; [reflexivity|]. simpl.
+  rewrite (H x) by (left; reflexivity). rewrite IH by (intros y Hy; apply H; right; exact Hy). reflexivity.
+Qed.
+
+Lemma tr_nodup_map_inj {A B} (f : A -> B) l a b : NoDup (map f l) -> In a l -> In b l -> f a = f b -> a = b.
+Proof.
+  induction l as [|x l IH]; intros Hnd Ha Hb E; [destruct Ha|].
+  simpl in Hnd. inversion Hnd as [|? ? Hx Hnd']; subst.
+  destruct Ha as [->|Ha]; destruct Hb as [->|Hb]; try reflexivity.
+  - exfalso. apply Hx. rewrite E. apply in_map. exact Hb.
+  - exfalso. apply Hx. rewrite <- E. apply in_map. exact Ha.
+  - apply IH; assumption.
+Qed.
+
+Lemma tr_select_row_rename rn N ocs (row : list Z) : NoDup (map rn N) -> incl ocs N ->
+  ch_select_row (map rn N) (map rn ocs) row = ch_select_row N ocs row.
+Proof.
+  intros Hnd Hincl. unfold ch_select_row. rewrite tr_flat_map_map.
+  apply tr_flat_map_ext_in. intros o Ho. apply ch_pick_rename.
+  intros n Hn. split.
+  - intros E. apply (tr_nodup_map_inj rn N n o Hnd Hn (Hincl o Ho) E).
+  - intros ->. reflexivity.
+Qed.
+
+(* two rows agree on the requested names *)
+Definition tr_rel (cs N1 N2 : list nat) (r1 r2 : list Z) : Prop :=
+  length r1 = length N1 /\ length r2 = length N2 /\ forall c, In c cs -> ch_pick c N1 r1 = ch_pick c N2 r2.
+
+Lemma tr_rel_select cs N1 N2 R1 R2 : Forall2 (tr_rel cs N1 N2) R1 R2 ->
+  map (ch_select_row N1 cs) R1 = map (ch_select_row N2 cs) R2.
+Proof.
+  intros H. induction H as [|r1 r2 R1 R2 [_ [_ Hr]] HR IH]; [reflexivity|]. simpl. f_equal; [|exact IH].
+  apply ch_select_row_ext. exact Hr.
+Qed.
+
+Lemma tr_rel_hzip cs N1 N1' N2 N2' A A' B B' :
+  Forall2 (tr_rel cs N1 N1') A A' -> Forall2 (tr_rel cs N2 N2') B B' ->
+  Forall2 (tr_rel cs (N1 ++ N2) (N1' ++ N2')) (tr_hzip A B) (tr_hzip A' B').
+Proof.
+  intros HA. revert B B'. induction HA as [|a a' A A' [Ha [Ha' Hp]] HA IH]; intros B B' HB.
+  - constructor.
+  - destruct HB as [|b b' B B' [Hb [Hb' Hq]] HB]; [constructor|].
+    rewrite !tr_hzip_cons. constructor; [|apply IH; exact HB].
+    repeat split.
+    + rewrite !app_length. lia.
+    + rewrite !app_length. lia.
+    + intros c Hc. rewrite !ch_pick_app by assumption. rewrite (Hp c Hc), (Hq c Hc). reflexivity.
+Qed.
+
+Lemma tr_rel_fold {A} cs (sN dN : A -> list nat) (sR dR : A -> list (list Z)) (l : list A) :
+  forall N0 N0' R0 R0', Forall2 (tr_rel cs N0 N0') R0 R0' ->
+  (forall x, In x l -> Forall2 (tr_rel cs (sN x) (dN x)) (sR x) (dR x)) ->
+  Forall2 (tr_rel cs (N0 ++ flat_map sN l) (N0' ++ flat_map dN l))
+          (fold_left tr_hzip (map sR l) R0) (fold_left tr_hzip (map dR l) R0').
+Proof.
+  induction l as [|x l IH]; intros N0 N0' R0 R0' H0 H.
+  - simpl. rewrite !app_nil_r. exact H0.
+  - simpl. rewrite !app_assoc. apply IH.
+    + apply tr_rel_hzip; [exact H0 | apply H; left; reflexivity].
+    + intros y Hy. apply H. right. exact Hy.
+Qed.
+
+Lemma tr_rel_member cs N (D : list (list Z)) : NoDup N -> Forall (fun row => length row = length N) D ->
+  Forall2 (tr_rel cs (tr_sub N cs) N) (map (ch_select_row N (tr_sub N cs)) D) D.
+Proof.
+  intros Hnd HD. induction HD as [|d D Hd HD IH]; [constructor|]. simpl. constructor; [|exact IH].
+  assert (Hsn : NoDup (tr_sub N cs)) by (apply tr_sub_nodup; exact Hnd).
+  repeat split.
+  - apply ch_select_row_length; [exact Hnd | exact Hd | apply tr_sub_incl].
+  - exact Hd.
+  - intros c Hc. destruct (ch_mem c N) eqn:E.
+    + apply ch_mem_In in E.
+      rewrite <- (ch_select_names_id N (tr_sub N cs) Hnd (tr_sub_incl N cs)) at 1.
+      apply ch_pick_select; [exact Hd | exact Hsn | apply tr_sub_In; split; assumption].
+    + apply ch_mem_false in E. rewrite (ch_pick_notin c N d E).
+      apply ch_pick_notin. intros Hin. apply tr_sub_In in Hin. apply E. apply Hin.
+Qed.
+
+(* the table of a well-formed reader is rectangular and has tr_nrows rows *)
+Lemma tr_den_wf c r : tr_wf c r ->
+  Forall (fun row => length row = length (tr_names r)) (tr_drows r) /\ length (tr_drows r) = tr_nrows r.
+Proof.
+  induction r as [t|t|t bl bl0|r m IH|rs IH|r k f IH] using tr_reader_ind'; intros Hwf.
+  - inversion Hwf as [t' [_ Hr]| | | | |]; subst. split; [exact Hr | reflexivity].
+  - inversion Hwf as [|t' [_ Hr]| | | |]; subst. split; [exact Hr | reflexivity].
+  - inversion Hwf as [| |t' ? ? [_ Hr] _| | |]; subst. split; [exact Hr | reflexivity].
+  - inversion Hwf as [| | |r' m' Hr _| |]; subst. destruct (IH Hr) as [H1 H2].
+    cbn [tr_names tr_drows tr_nrows]. rewrite map_length. split; assumption.
+  - inversion Hwf as [| | | |rs' Hne Hall Hn Hnd|]; subst.
+    destruct rs as [|r0 rs']; [congruence|].
+    rewrite Forall_forall in IH, Hall.
+    assert (Hm : forall r, In r (r0 :: rs') ->
+              Forall (fun row => length row = length (tr_names r)) (tr_drows r)
+              /\ length (tr_drows r) = tr_nrows (TrJoined (r0 :: rs'))).
+    { intros r Hr. destruct (IH r Hr (Hall r Hr)) as [H1 H2]. rewrite <- (Hn r Hr). split; assumption. }
+    cbn [tr_names tr_drows tr_hzip_all map flat_map]. split.
+    + pose (mem := fun r : tr_reader => (tr_names r, tr_drows r, true) : tr_mem).
+      assert (E1 : map tr_drows rs' = map tr_mR (map mem rs')) by (rewrite map_map; reflexivity).
+      assert (E2 : flat_map tr_names rs' = flat_map tr_mN (map mem rs')) by (rewrite tr_flat_map_map; reflexivity).
+      rewrite E1, E2. apply tr_hzip_fold_width.
+      * apply (Hm r0). left. reflexivity.
+      * intros p Hp. apply in_map_iff in Hp. destruct Hp as [r [<- Hr]]. apply (Hm r). right. exact Hr.
+    + rewrite tr_hzip_fold_length.
+      * apply (Hm r0). left. reflexivity.
+      * intros R HR. apply in_map_iff in HR. destruct HR as [r [<- Hr]].
+        destruct (Hm r (or_intror Hr)) as [_ H2]. destruct (Hm r0 (or_introl eq_refl)) as [_ H2'].
+        rewrite H2, H2'. reflexivity.
+  - inversion Hwf as [| | | | |r' k' f' g Hr Hk Hf]; subst. destruct (IH Hr) as [H1 H2].
+    rewrite (tr_drows_computed k f g Hf). cbn [tr_names tr_nrows]. rewrite map_length. split; [|exact H2].
+    apply Forall_map. rewrite Forall_forall in *. intros row Hrow. unfold tr_ext.
+    rewrite !app_length. simpl. rewrite (H1 row Hrow). reflexivity.
+Qed.
+
+Definition tr_stage2 (r : tr_reader) : Prop :=
+  forall cs, NoDup cs -> incl cs (tr_names r) -> tr_req_inv r cs -> tr_rows r cs = tr_select r cs.
+
+Theorem tr_stage2_all c : forall r, tr_wf c r -> tr_stage2 r.
+Proof.
+  intros r. induction r as [t|t|t bl bl0|r m IH|rs IH|r k f IH] using tr_reader_ind';
+    intros Hwf cs Hnd Hincl Hinv.
+  - reflexivity.
+  - reflexivity.
+  - reflexivity.
+  - inversion Hwf as [| | |r' m' Hr Hndm| |]; subst.
+    inversion Hinv as [| | |r' m' cs' ocs Horig Hinv'| |]; subst.
+    destruct (tr_orig_cols_spec _ _ _ _ Horig) as [Hmap Hio].
+    assert (Hndo : NoDup ocs) by (apply (NoDup_map_inv (tr_rename m)); rewrite Hmap; exact Hnd).
+    cbn [tr_rows]. rewrite Horig. rewrite (IH Hr ocs Hndo Hio Hinv').
+    unfold tr_select. cbn [tr_names tr_drows]. apply map_ext. intros row.
+    rewrite <- Hmap. symmetry. apply tr_select_row_rename; assumption.
+  - inversion Hwf as [| | | |rs' Hne Hall Hn Hndn|]; subst.
+    inversion Hinv as [| | | |rs' cs' Hinvs|]; subst.
+    destruct rs as [|r0 rs']; [congruence|].
+    rewrite Forall_forall in IH, Hall.
+    assert (Hm : forall r, In r (r0 :: rs') ->
+              Forall2 (tr_rel cs (tr_sub (tr_names r) cs) (tr_names r))
+                      (tr_rows r (tr_sub (tr_names r) cs)) (tr_drows r)).
+    { intros r Hr. assert (Hwr := Hall r Hr).
+      assert (Hnr := tr_wf_names_nodup c r Hwr).
+      rewrite (IH r Hr Hwr (tr_sub (tr_names r) cs)).
+      - apply tr_rel_member; [exact Hnr | apply (tr_den_wf c r Hwr)].
+      - apply tr_sub_nodup. exact Hnr.
+      - apply tr_sub_incl.
+      - apply Hinvs. exact Hr. }
+    cbn [tr_rows]. unfold tr_select. cbn [tr_names tr_drows map flat_map tr_hzip_all].
+    apply tr_rel_select.
+    apply (tr_rel_fold cs (fun r => tr_sub (tr_names r) cs) tr_names
+                       (fun r => tr_rows r (tr_sub (tr_names r) cs)) tr_drows rs').
+    + apply (Hm r0). left. reflexivity.
+    + intros r Hr. apply (Hm r). right. exact Hr.
+  - inversion Hwf as [| | | | |r' k' f' g Hr Hk Hf]; subst.
+    inversion Hinv as [| | | | |r' k' f' cs' Hfinv Hinv']; subst.
+    cbn [tr_names] in Hincl.
+    set (cs' := tr_without k cs) in *.
+    assert (Hnd' : NoDup cs') by (apply tr_without_nodup; exact Hnd).
+    assert (Hincl' : incl cs' (tr_names r)).
+    { intros x Hx. apply tr_without_In in Hx. destruct Hx as [Hx Hne].
+      apply Hincl in Hx. apply in_app_or in Hx. destruct Hx as [Hx|[Hx|[]]]; [exact Hx | congruence]. }
+    assert (Hk' : ~ In k cs') by (intros Hx; apply tr_without_In in Hx; destruct Hx; congruence).
+    assert (Hnr := tr_wf_names_nodup c r Hr).
+    destruct (tr_den_wf c r Hr) as [Hw _].
+    rewrite (tr_rows_computed k f g Hf). fold cs'. rewrite (IH Hr cs' Hnd' Hincl' Hinv').
+    unfold tr_select. rewrite (tr_drows_computed k f g Hf). cbn [tr_names].
+    rewrite !map_map. apply map_ext_in. intros d Hd.
+    rewrite Forall_forall in Hw. assert (Hdl := Hw d Hd).
+    (* the function sees only the requested columns, and does not mind *)
+    rewrite !Hf in Hfinv. inversion Hfinv as [Hg]. rewrite map_map in Hg.
+    assert (Hgd := tr_map_pointwise _ _ _ Hg d Hd). cbn beta in Hgd.
+    unfold tr_ext. rewrite Hgd.
+    apply ch_select_row_ext. intros x Hx.
+    assert (Hsl : length (ch_select_row (tr_names r) cs' d) = length cs')
+      by (apply ch_select_row_length; assumption).
+    rewrite !ch_pick_app by assumption. f_equal.
+    destruct (Nat.eq_dec x k) as [->|Hne].
+    + rewrite (ch_pick_notin k cs') by exact Hk'. rewrite (ch_pick_notin k (tr_names r)) by exact Hk. reflexivity.
+    + rewrite <- (ch_select_names_id (tr_names r) cs' Hnr Hincl') at 1.
+      apply ch_pick_select; [exact Hdl | exact Hnd' | apply tr_without_In; split; assumption].
+Qed.
+
+(* ================= the statement about chunk lists ================= *)
+(* chs is a chunked delivery (chunk size c) of the frame with names N and rows R, RangeIndex *)
+Definition tr_chunked (c : nat) (N : list nat) (R : list (list Z)) (chs : list ch_frame) : Prop :=
+  ch_concat N chs = ch_whole N R                                     (* rows, row order, index 0..n-1 *)
+  /\ Forall (fun f => ch_names f = N) chs                            (* requested columns, requested order *)
+  /\ (forall i f, nth_error chs i = Some f -> ch_index f = seq (i * c) (length (ch_rows f)))
+                                                                     (* the index continues across chunks *)
+  /\ (forall i f, nth_error chs i = Some f -> S i < length chs -> length (ch_rows f) = c)
+  /\ (R <> [] -> map ch_rows chs = ch_chunks c R).                   (* chunk boundaries *)
+
+Lemma tr_sform_chunked c N R b : 0 < c -> tr_chunked c N R (fst (tr_sform c N R b)).
+Proof.
+  intros Hc. unfold tr_sform, tr_chunked. destruct R as [|x R]; cbn [fst].
+  - destruct b.
+    + split; [reflexivity|]. split; [repeat constructor|]. split; [|split].
+      * intros [|i] f Hi; [inversion Hi; reflexivity | destruct i; discriminate].
+      * intros i f Hi Hl. simpl in Hl. lia.
+      * congruence.
+    + split; [reflexivity|]. split; [constructor|]. split; [|split].
+      * intros i f Hi. destruct i; discriminate.
+      * intros i f Hi. destruct i; discriminate.
+      * congruence.
+  - remember (x :: R) as R' eqn:ER. split; [|split; [|split; [|split]]].
+    + apply ch_concat_frames. exact Hc.
+    + apply Forall_forall. intros f Hf. apply (ch_frames_names c N R'). exact Hf.
+    + intros i f Hi. rewrite ch_frames_nth in Hi by exact Hc.
+      destruct (Nat.ltb (i * c) (length R')); [|discriminate]. inversion Hi. reflexivity.
+    + intros i f Hi Hl.
+      assert (Hi2 : nth_error (ch_chunks c R') i = Some (ch_rows f)).
+      { rewrite <- ch_frames_rows with (names := N). rewrite nth_error_map, Hi. reflexivity. }
+      apply (ch_chunks_full c R' i (ch_rows f) Hc Hi2).
+      rewrite <- ch_frames_rows with (names := N). rewrite map_length. exact Hl.
+    + intros _. apply ch_frames_rows.
+Qed.
+
+(* ================= the reader theorems ================= *)
+(* for every well-formed reader tree, every chunk size >= 1 and every admissible request: the chunked
+   read succeeds and is a chunked delivery of the whole read, which is the requested columns (in the
+   requested order) of the table the reader stands for *)
+Theorem tr_reader_ok c r cs : 0 < c -> tr_wf c r -> NoDup cs -> incl cs (tr_names r) ->
+  tr_req r cs -> tr_req_inv r cs ->
+  exists chs, tr_chunks r c (Some cs) = Ok chs
+    /\ tr_read r (Some cs) = Ok (ch_whole cs (tr_select r cs))
+    /\ tr_chunked c cs (tr_select r cs) chs
+    /\ length (tr_select r cs) = tr_nrows r.
+Proof.
+  intros Hc Hwf Hnd Hincl Hreq Hinv.
+  destruct (tr_stage1_all c Hc r Hwf cs Hnd Hincl Hreq) as [Hread [Hstream [Hlen _]]].
+  rewrite (tr_stage2_all c r Hwf cs Hnd Hincl Hinv) in *.
+  exists (fst (tr_sform c cs (tr_select r cs) (tr_eb r))). split; [|split; [|split]].
+  - unfold tr_chunks. rewrite Hstream. reflexivity.
+  - exact Hread.
+  - apply tr_sform_chunked. exact Hc.
+  - exact Hlen.
+Qed.
+
+(* chunked = whole needs no assumption on what computed functions look at, only that they work row by row *)
+Theorem tr_reader_chunks_eq_read c r cs : 0 < c -> tr_wf c r -> NoDup cs -> incl cs (tr_names r) ->
+  tr_req r cs ->
+  exists chs whole, tr_chunks r c (Some cs) = Ok chs /\ tr_read r (Some cs) = Ok whole
+    /\ ch_names whole = cs /\ ch_index whole = seq 0 (tr_nrows r) /\ length (ch_rows whole) = tr_nrows r
+    /\ tr_chunked c cs (ch_rows whole) chs.
+Proof.
+  intros Hc Hwf Hnd Hincl Hreq.
+  destruct (tr_stage1_all c Hc r Hwf cs Hnd Hincl Hreq) as [Hread [Hstream [Hlen _]]].
+  exists (fst (tr_sform c cs (tr_rows r cs) (tr_eb r))), (ch_whole cs (tr_rows r cs)).
+  split; [|split; [|split; [|split; [|split]]]].
+  - unfold tr_chunks. rewrite Hstream. reflexivity.
+  - exact Hread.
+  - reflexivity.
+  - cbn [ch_whole ch_index]. rewrite Hlen. reflexivity.
+  - exact Hlen.
+  - apply tr_sform_chunked. exact Hc.
+Qed.
+
+(* ----- one theorem per reader kind, hypotheses spelled out ----- *)
+Theorem tr_reader_frame c t cs : 0 < c -> tb_wf t -> NoDup cs -> incl cs (tb_names t) ->
+  exists chs, tr_chunks (TrFrame t) c (Some cs) = Ok chs
+    /\ tr_read (TrFrame t) (Some cs) = Ok (ch_whole cs (map (ch_select_row (tb_names t) cs) (tb_rows t)))
+    /\ tr_chunked c cs (map (ch_select_row (tb_names t) cs) (tb_rows t)) chs.
+Proof.
+  intros Hc Ht Hnd Hincl.
+  destruct (tr_reader_ok c (TrFrame t) cs Hc (wf_frame c t Ht) Hnd Hincl (rq_frame t cs) (ri_frame t cs))
+    as [chs [H1 [H2 [H3 _]]]].
+  exists chs. auto.
+Qed.
+
+Theorem tr_reader_csv c t cs : 0 < c -> tb_wf t -> NoDup cs -> incl cs (tb_names t) -> cs <> [] ->
+  exists chs, tr_chunks (TrCsv t) c (Some cs) = Ok chs
+    /\ tr_read (TrCsv t) (Some cs) = Ok (ch_whole cs (map (ch_select_row (tb_names t) cs) (tb_rows t)))
+    /\ tr_chunked c cs (map (ch_select_row (tb_names t) cs) (tb_rows t)) chs.
+Proof.
+  intros Hc Ht Hnd Hincl Hne.
+  destruct (tr_reader_ok c (TrCsv t) cs Hc (wf_csv c t Ht) Hnd Hincl (rq_csv t cs Hne) (ri_csv t cs))
+    as [chs [H1 [H2 [H3 _]]]].
+  exists chs. auto.
+Qed.
+
+(* Parquet: for every batch-length oracle that keeps the contract *)
+Theorem tr_reader_parquet c t bl bl0 cs : 0 < c -> tb_wf t -> ch_batches_ok c (length (tb_rows t)) bl ->
+  NoDup cs -> incl cs (tb_names t) -> cs <> [] ->
+  exists chs, tr_chunks (TrParquet t bl bl0) c (Some cs) = Ok chs
+    /\ tr_read (TrParquet t bl bl0) (Some cs) = Ok (ch_whole cs (map (ch_select_row (tb_names t) cs) (tb_rows t)))
+    /\ tr_chunked c cs (map (ch_select_row (tb_names t) cs) (tb_rows t)) chs.
+Proof.
+  intros Hc Ht Hb Hnd Hincl Hne.
+  destruct (tr_reader_ok c (TrParquet t bl bl0) cs Hc (wf_parquet c t bl bl0 Ht Hb) Hnd Hincl
+                         (rq_parquet t bl bl0 cs Hne) (ri_parquet t bl bl0 cs))
+    as [chs [H1 [H2 [H3 _]]]].
+  exists chs. auto.
+Qed.
+
+(* ColumnMappedReader over any well-formed reader: every request within the new names is served *)
+Theorem tr_reader_mapped c r m cs : 0 < c -> tr_wf c r -> NoDup (map (tr_rename m) (tr_names r)) ->
+  NoDup cs -> incl cs (map (tr_rename m) (tr_names r)) ->
+  exists ocs, tr_orig_cols (combine (map (tr_rename m) (tr_names r)) (tr_names r)) cs = Some ocs
+    /\ map (tr_rename m) ocs = cs
+    /\ (tr_req r ocs -> tr_req_inv r ocs ->
+        exists chs, tr_chunks (TrMapped r m) c (Some cs) = Ok chs
+          /\ tr_read (TrMapped r m) (Some cs) = Ok (ch_whole cs (tr_select r ocs))
+          /\ tr_chunked c cs (tr_select r ocs) chs).
+Proof.
+  intros Hc Hwf Hndm Hnd Hincl.
+  destruct (tr_orig_cols_total (tr_rename m) (tr_names r) cs Hndm Hincl) as [ocs Hocs].
+  destruct (tr_orig_cols_spec _ _ _ _ Hocs) as [Hmap Hio].
+  exists ocs. split; [exact Hocs|]. split; [exact Hmap|]. intros Hreq Hinv.
+  destruct (tr_reader_ok c (TrMapped r m) cs Hc (wf_mapped c r m Hwf Hndm) Hnd Hincl
+                         (rq_mapped r m cs ocs Hocs Hreq) (ri_mapped r m cs ocs Hocs Hinv))
+    as [chs [H1 [H2 [H3 _]]]].
+  assert (E : tr_select (TrMapped r m) cs = tr_select r ocs).
+  { unfold tr_select. cbn [tr_names tr_drows]. apply map_ext. intros row.
+    rewrite <- Hmap. apply tr_select_row_rename; assumption. }
+  rewrite E in *. exists chs. auto.
+Qed.
+
+Theorem tr_reader_joined c rs cs : 0 < c -> tr_wf c (TrJoined rs) -> NoDup cs -> incl cs (flat_map tr_names rs) ->
+  (forall r, In r rs -> tr_req r (tr_sub (tr_names r) cs) /\ tr_req_inv r (tr_sub (tr_names r) cs)) ->
+  exists chs, tr_chunks (TrJoined rs) c (Some cs) = Ok chs
+    /\ tr_read (TrJoined rs) (Some cs)
+       = Ok (ch_whole cs (map (ch_select_row (flat_map tr_names rs) cs) (tr_hzip_all (map tr_drows rs))))
+    /\ tr_chunked c cs (map (ch_select_row (flat_map tr_names rs) cs) (tr_hzip_all (map tr_drows rs))) chs.
+Proof.
+  intros Hc Hwf Hnd Hincl Hm.
+  destruct (tr_reader_ok c (TrJoined rs) cs Hc Hwf Hnd Hincl
+                         (rq_joined rs cs (fun r Hr => proj1 (Hm r Hr)))
+                         (ri_joined rs cs (fun r Hr => proj2 (Hm r Hr))))
+    as [chs [H1 [H2 [H3 _]]]].
+  exists chs. auto.
+Qed.
+
+Theorem tr_reader_computed c r k f g cs : 0 < c -> tr_wf c r -> ~ In k (tr_names r) ->
+  (forall names rows, f names rows = Ok (map (g names) rows)) ->
+  NoDup cs -> incl cs (tr_names r ++ [k]) ->
+  tr_req r (tr_without k cs) -> tr_req_inv r (tr_without k cs) ->
+  f (tr_without k cs) (map (ch_select_row (tr_names r) (tr_without k cs)) (tr_drows r)) = f (tr_names r) (tr_drows r) ->
+  exists chs, tr_chunks (TrComputed r k f) c (Some cs) = Ok chs
+    /\ tr_read (TrComputed r k f) (Some cs)
+       = Ok (ch_whole cs (map (ch_select_row (tr_names r ++ [k]) cs)
+                              (map (fun row => row ++ [g (tr_names r) row]) (tr_drows r))))
+    /\ tr_chunked c cs (map (ch_select_row (tr_names r ++ [k]) cs)
+                            (map (fun row => row ++ [g (tr_names r) row]) (tr_drows r))) chs.
+Proof.
+  intros Hc Hwf Hk Hf Hnd Hincl Hreq Hinv Hfi.
+  destruct (tr_reader_ok c (TrComputed r k f) cs Hc (wf_computed c r k f g Hwf Hk Hf) Hnd Hincl
+                         (rq_computed r k f cs Hreq) (ri_computed r k f cs Hfi Hinv))
+    as [chs [H1 [H2 [H3 _]]]].
+  assert (E : tr_select (TrComputed r k f) cs
+              = map (ch_select_row (tr_names r ++ [k]) cs) (map (fun row => row ++ [g (tr_names r) row]) (tr_drows r))).
+  { unfold tr_select. rewrite (tr_drows_computed k f g Hf). reflexivity. }
+  rewrite E in *. exists chs. auto.
+Qed.
+
+(* the cell-level reading of "the requested columns in the requested order" *)
+Theorem tr_select_cell c r cs : tr_wf c r -> incl cs (tr_names r) ->
+  forall i row, nth_error (tr_drows r) i = Some row ->
+  exists srow, nth_error (tr_select r cs) i = Some srow /\ length srow = length cs
+    /\ forall j cn p, nth_error cs j = Some cn -> nth_error (tr_names r) p = Some cn ->
+       nth_error srow j = nth_error row p.
+Proof.
+  intros Hwf Hincl i row Hi.
+  assert (Hnd := tr_wf_names_nodup c r Hwf). destruct (tr_den_wf c r Hwf) as [Hw _].
+  rewrite Forall_forall in Hw. assert (Hl := Hw row (nth_error_In _ _ Hi)).
+  exists (ch_select_row (tr_names r) cs row). split; [|split].
+  - unfold tr_select. rewrite nth_error_map, Hi. reflexivity.
+  - apply ch_select_row_length; assumption.
+  - intros j cn p Hj Hp. apply (ch_select_row_spec (tr_names r) cs row Hnd Hl Hincl j cn p Hj Hp).
+Qed.
+
+(* ----- the guards are necessary: behaviour of the code outside them ----- *)
+(* columns=None on a computed reader raises (typeguard), whole and chunked *)
+Lemma tr_computed_none r k f c :
+  tr_read (TrComputed r k f) None = Err EType /\ tr_chunks (TrComputed r k f) c None = Err EType.
+Proof. split; reflexivity. Qed.
